@@ -80,6 +80,15 @@ theorem finding_murmur_vs_java_port :
     Murmur.murmurByte [1, 2] = Murmur.Ref.javaMurmur32 [1, 2] Murmur.defaultSeed
     ∧ ¬ (Murmur.murmurByte [128] = Murmur.Ref.javaMurmur32 [128] Murmur.defaultSeed) := by decide +kernel
 
+/-- narrowing of the same finding against the *Java* reference: whenever the left-over bytes are all below 0x80
+    (every ASCII input) the Go function **is** the stream-lib Java function; the witness above (byte 0x80) shows the
+    hypothesis cannot be dropped -/
+theorem murmur_java_partial (data : Bytes) (seed : Nat) (hw : WFB data)
+    (h7 : ∀ b ∈ data.drop (data.length / 4 * 4), b < 128) :
+    Murmur.murmur32 data seed = Murmur.Ref.javaMurmur32 data seed := Murmur.murmur32_eq_java data seed hw h7
+
+example : ∀ b ∈ ([104, 105, 33] : Bytes).drop (([104, 105, 33] : Bytes).length / 4 * 4), b < 128 := by decide
+
 /-- `MurmurHashLong(d)` is MurmurHash2 of the eight little-endian bytes of `d` with seed 8 -/
 theorem murmurLong_ref (d : Nat) (hd : d < 18446744073709551616) :
     Murmur.murmurLong d = Murmur.Ref.murmurHash2 (Murmur.Ref.bytes8 d) 8 := Murmur.murmurLong_ref d hd
